@@ -139,9 +139,8 @@ class MathEnv:
                 cfn = mir.get(hits[0]); caps = cfn.captures()
                 vals = {}
                 for nm, get in scalars.items():
-                    if nm not in caps: raise VMError('closure of %s has no capture %s (has %s)' % (method, nm, sorted(caps)))
-                    vals[nm] = get(a)
-                if set(caps) != set(scalars): raise VMError('closure captures of %s changed: %s' % (method, sorted(caps)))
+                    if nm in caps: vals[nm] = get(a)          # a scalar the closure no longer uses is simply not captured
+                if not set(caps) <= set(scalars): raise VMError('closure of %s captures something this environment does not know: %s' % (method, sorted(set(caps) - set(scalars))))
                 fields = [None] * len(caps)
                 for nm, (idx, byref) in caps.items():
                     fields[idx] = Ref(m.alloc(vals[nm])) if byref else vals[nm]
